@@ -306,15 +306,17 @@ def main(argv=None):
             fails = v.get("failures", [])
             kf = kf_by_repro.get(rel)
             if kf:
+                # the finding is identified by this specific input: every failure on it belongs to the
+                # finding as long as the listed clause + signature is among them; if the input now fails
+                # in a different way only, that is a different violation
                 match = [f for f in fails if findings.matches(kf, f)]
-                other = [f for f in fails if not findings.matches(kf, f)]
                 if match:
                     kf_reproduced.append(kf["id"])
                     known_lines.append(f"KNOWN-FINDING: property={pid} {kf['id']} {kf['what']}")
+                elif fails:
+                    violations.append((rel, fails[0]))
                 else:
                     kf_not_reproduced.append(kf["id"])
-                if other:
-                    violations.append((rel, other[0]))
             elif fails:
                 violations.append((rel, fails[0]))
 
